@@ -15,8 +15,48 @@ func vZone(sel int) *time.Location {
 		return time.FixedZone("M8", -8*3600)
 	case 3:
 		return time.FixedZone("P0530", 5*3600+1800)
+	case 4:
+		return vDSTZone()
 	}
 	return time.UTC
+}
+
+// a synthetic daylight-saving zone, built from TZif bytes so that the real time.Location machinery
+// (transition table, binary search in lookup) is used: UTC-5 in winter, UTC-4 from 10 March 07:00 UTC
+// to 3 November 06:00 UTC of every year 1999..2037 (so every year has a 23-hour and a 25-hour day)
+func vDSTZone() *time.Location {
+	be32 := func(b []byte, v int64) []byte {
+		return append(b, byte(v>>24), byte(v>>16), byte(v>>8), byte(v))
+	}
+	var times, idx []byte
+	n := int64(0)
+	for y := 1999; y <= 2037; y++ {
+		times = be32(times, time.Date(y, time.March, 10, 7, 0, 0, 0, time.UTC).Unix())
+		idx = append(idx, 1)
+		times = be32(times, time.Date(y, time.November, 3, 6, 0, 0, 0, time.UTC).Unix())
+		idx = append(idx, 0)
+		n += 2
+	}
+	b := []byte{'T', 'Z', 'i', 'f', 0}
+	b = append(b, make([]byte, 15)...)
+	b = be32(b, 0) // isutcnt
+	b = be32(b, 0) // isstdcnt
+	b = be32(b, 0) // leapcnt
+	b = be32(b, n) // timecnt
+	b = be32(b, 2) // typecnt
+	b = be32(b, 8) // charcnt
+	b = append(b, times...)
+	b = append(b, idx...)
+	b = be32(b, -5*3600)
+	b = append(b, 0, 0)
+	b = be32(b, -4*3600)
+	b = append(b, 1, 4)
+	b = append(b, 'E', 'S', 'T', 0, 'E', 'D', 'T', 0)
+	loc, err := time.LoadLocationFromTZData("Synthetic/DST", b)
+	if err != nil {
+		panic("harness: " + err.Error())
+	}
+	return loc
 }
 
 // years case-split by the harness (each case: every instant of that year, symbolic)
@@ -52,11 +92,13 @@ func vInstant(year int64) (time.Time, int64) {
 func VerifC30Index() {
 	ntf := int64(len(utils.Timeframes) - 1)
 	tf := utils.Timeframes[int(rt.Fix(rt.Int("tf", 0, ntf)))].Duration
-	nz := int64(1)
+	zsel := rt.Fix(rt.Int("zone", 0, 2))
 	if rt.Tier() == 1 {
-		nz = 3
+		zsel = rt.Fix(rt.Int("zone_t", 0, 4))
+	} else if zsel == 2 {
+		zsel = 4 // quick: UTC, UTC+5 and the daylight-saving zone
 	}
-	zone := vZone(int(rt.Fix(rt.Int("zone", 0, nz))))
+	zone := vZone(int(zsel))
 	utils.InstanceConfig.Timezone = zone
 	t, _ := vInstant(vYear("year"))
 	rt.Reach("entered")
@@ -69,7 +111,13 @@ func VerifC30Index() {
 	rt.Observe("year", int64(year))
 	rt.Reach("indexed")
 	rt.Assert(!back.After(t), "slot-start-not-after-timestamp")
-	rt.Assert(t.Sub(back) < tf, "timestamp-inside-slot")
+	if tf == utils.Day {
+		// a 1D slot is a local calendar day (23 or 25 hours long on daylight-saving changes)
+		bl, tl := back.In(zone), t.In(zone)
+		rt.Assert(bl.Year() == tl.Year() && bl.YearDay() == tl.YearDay(), "timestamp-inside-slot")
+	} else {
+		rt.Assert(t.Sub(back) < tf, "timestamp-inside-slot")
+	}
 
 	recLen := rt.Int("reclen", 16, 4096)
 	off := IndexToOffset(idx, int32(recLen))
@@ -83,7 +131,11 @@ func VerifC30Index() {
 func VerifC30Distinct() {
 	ntf := int64(len(utils.Timeframes) - 1)
 	tf := utils.Timeframes[int(rt.Fix(rt.Int("tf", 0, ntf)))].Duration
-	zone := vZone(int(rt.Fix(rt.Int("zone", 0, 1))))
+	zsel := rt.Fix(rt.Int("zone", 0, 2))
+	if zsel == 2 {
+		zsel = 4 // the daylight-saving zone
+	}
+	zone := vZone(int(zsel))
 	utils.InstanceConfig.Timezone = zone
 	t, _ := vInstant(vYear("year"))
 	d := rt.Int("delta_ns", 0, 3*int64(tf))
@@ -94,6 +146,10 @@ func VerifC30Distinct() {
 	i1, i2 := TimeToIndex(t, tf), TimeToIndex(t2, tf)
 	start := IndexToTime(i1, tf, int16(y1))
 	same := t2.Sub(start) < tf
+	if tf == utils.Day {
+		a, b := t.In(zone), t2.In(zone)
+		same = a.YearDay() == b.YearDay()
+	}
 	rt.Assert(i1 <= i2, "index-monotone")
 	rt.Assert((i1 == i2) == same, "same-slot-iff-same-interval")
 }
